@@ -48,3 +48,38 @@ package amounts
 //
 //@ func (Amounts).CommoditiesSorted
 //@   ensures fresh(result)
+//
+// SumIntoBy: every entry of am that passes pred adds its amount to dest at the mapped key; a key of
+// dest that no passing entry maps to keeps its amount; an entry whose mapped key is shared with no
+// other passing entry changes dest there by exactly its own amount; no zero entries remain in dest.
+// (pred == nil accepts everything, mapr == nil is the identity.)
+//@ def passes(pred func(Key) bool, k Key) bool := pred == nil || pred(k)
+//@ def mapped(mapr func(Key) Key, k Key) Key := mapr == nil ? k : mapr(k)
+//@ func (Amounts).SumIntoBy
+//@   requires dest != nil && dest != am
+//@   pure pred, mapr
+//@   modifies dest[*]
+//@   ensures [C01] [C02] @untouched: forall k2 Key :: {key(dest, k2)} (forall k Key :: {key(am, k)} (k in am) && passes(pred, k) ==> mapped(mapr, k) != k2) ==> dest[k2] == old(dest[k2])
+//@   ensures [C01] [C02] @single: forall k Key :: {key(am, k)} (k in am) && passes(pred, k)
+//@        && (forall o Key :: {key(am, o)} (o in am) && passes(pred, o) && o != k ==> mapped(mapr, o) != mapped(mapr, k)) ==> dest[mapped(mapr, k)] == old(dest[mapped(mapr, k)]) + am[k]
+//@   ensures [C01] [C02] @nozero: forall k2 Key :: {key(dest, k2)} (k2 in dest) ==> dest[k2] != 0.0
+//@   loop 1 invariant dest != nil && dest != am && dom(am) == old(dom(am)) && vals(am) == old(vals(am))
+//@   loop 1 invariant forall k Key :: {$seen[k]} $seen[k] ==> (k in am)
+//@   loop 1 invariant forall k2 Key :: {key(dest, k2)} (forall k Key :: {$seen[k]} $seen[k] && passes(entry(pred), k) ==> mapped(entry(mapr), k) != k2) ==> dest[k2] == old(dest[k2])
+//@   loop 1 invariant forall k Key :: {$seen[k]} $seen[k] && passes(entry(pred), k)
+//@        && (forall o Key :: {key(am, o)} (o in am) && passes(entry(pred), o) && o != k ==> mapped(entry(mapr), o) != mapped(entry(mapr), k)) ==> dest[mapped(entry(mapr), k)] == old(dest[mapped(entry(mapr), k)]) + am[k]
+//@   loop 2 invariant dest != nil && dest != am && dom(am) == old(dom(am)) && vals(am) == old(vals(am))
+//@   loop 2 invariant forall k2 Key :: {key(dest, k2)} dest[k2] == entry(dest[k2])
+//@   loop 2 invariant forall k2 Key :: {key(dest, k2)} $seen[k2] && (k2 in dest) ==> dest[k2] != 0.0
+//@   loop 2 invariant forall k2 Key :: {key(dest, k2)} (k2 in dest) ==> entry(k2 in dest)
+//
+// KeyMapper.Build: the mapped key is computed field by field - each field only from the same field of
+// the input, through its own mapper; a field without mapper is dropped (zero value). So two keys that
+// agree in the mapped fields are mapped to the same key whatever their other fields are.
+//@ func (KeyMapper).Build$1
+//@   pure Date, Account, Other, Commodity, Valuation, Description
+//@   ensures [C01] [C02] @fields: (km.Date != nil ==> result.Date == km.Date(k.Date)) && (km.Account != nil ==> result.Account == km.Account(k.Account))
+//@        && (km.Other != nil ==> result.Other == km.Other(k.Other)) && (km.Commodity != nil ==> result.Commodity == km.Commodity(k.Commodity))
+//@        && (km.Valuation != nil ==> result.Valuation == km.Valuation(k.Valuation)) && (km.Description != nil ==> result.Description == km.Description(k.Description))
+//@   ensures [C01] [C02] @dropped: (km.Account == nil ==> result.Account == nil) && (km.Other == nil ==> result.Other == nil) && (km.Commodity == nil ==> result.Commodity == nil)
+//@        && (km.Valuation == nil ==> result.Valuation == nil) && (km.Description == nil ==> result.Description == "")
